@@ -29,7 +29,9 @@
                          metadata, the fissile nuclides of both sides switch to their own chi),
                          _mergeNuclides / XSNuclide.merge / XSCollection.merge / _mergeAttributes (a label new to the
                          target is adopted, a known label takes the kinds it lacks).
-     MergeRefused(t, o)  a conflict: the call raises and BOTH libraries keep their state.  Conflicts, in the order the
+     MergeRefused(t, o)  a conflict: the call raises and both libraries keep their state (the code's own comment: "nothing
+                         has been modified in two objects"; the conformance check compares the target, which is what the
+                         property's statement constrains, and the bystanders).  Conflicts, in the order the
                          code looks for them:  "Property"  two different energy structures / dose factors
                          (ImmutablePropertyError), "Metadata"  two different file-metadata variants of one kind, or a PMATRX
                          file with dose factors meeting one without (OSError),
@@ -44,6 +46,9 @@
        that there is one may not: VelocityKept.
      * the file metadata's free-text libraryLabel (first one wins) is not content.
      * a library is merged at most once (the code empties it), and never into itself.
+     * the chi rule looks at every nuclide of both libraries; a nuclide without ISOTXS data (gamma / production data only)
+       has no fission flag and is not fissile for this purpose (the code compares None > 0 there).
+     * sources of one scenario are interchangeable, so Init takes multisets of SrcList; all merge orders are explored.
 *)
 EXTENDS Integers, Sequences, FiniteSets, TLC, Json, FiniteSetsExt, SequencesExt
 
